@@ -38,7 +38,11 @@ fn observe(db: &mut RootDatabase, code: &str) -> (String, String) {
     (diag, s)
 }
 
-const LIB: &str = "pub mod shapes {\n    #[derive(Copy, Drop, PartialEq, Serde)]\n    pub struct Pt { pub x: u8, pub y: u8 }\n    #[derive(Copy, Drop)]\n    pub enum Shape { Dot: Pt, Seg: (Pt, Pt), Nil }\n    pub trait Area<T> { fn area(self: @T) -> u32; }\n    pub impl ShapeArea of Area<Shape> {\n        fn area(self: @Shape) -> u32 {\n            match *self { Shape::Dot(_) => 1, Shape::Seg((a, b)) => super::util::dist(a.x, b.x) + super::util::dist(a.y, b.y), Shape::Nil => 0 }\n        }\n    }\n}\npub mod util {\n    pub const LIMIT: u32 = 300;\n    pub fn dist(a: u8, b: u8) -> u32 { if a < b { (b - a).into() } else { (a - b).into() } }\n    pub fn twice<T, +Add<T>, +Copy<T>, +Drop<T>>(x: T) -> T { x + x }\n    pub fn sum(mut s: Span<u32>) -> u32 { let mut t = 0; while let Some(v) = s.pop_front() { t += *v; } t }\n    #[inline(always)]\n    pub fn clamp(v: u32) -> u32 { if v > LIMIT { LIMIT } else { v } }\n    pub fn fact(n: u32) -> u32 { if n == 0 { 1 } else { n * fact(n - 1) } }\n}\n";
+/// The cached library crate: shapes/util plus `feats`, one item per kind of thing a cache has to carry (declared
+/// implicits, nopanic, inline attributes, ref parameters, negative literals, consts of every shape, closures, loops,
+/// matches, snapshots, destructors, default trait methods, aliases, generics, recursion, byte arrays, format macros,
+/// 5-variant enums, must_use / deprecated / unstable attributes, visibilities, re-exports, associated items).
+const LIB: &str = include_str!("c20_lib.cairo");
 
 const LIB_DEPENDENTS: &[(&str, &str)] = &[
     ("area", "use mylib::shapes::{Pt, Shape, Area};\nfn f(a: u8, b: u8) -> u32 { let s = Shape::Seg((Pt { x: a, y: 1 }, Pt { x: 2, y: b })); s.area() }\n"),
@@ -51,6 +55,45 @@ const LIB_DEPENDENTS: &[(&str, &str)] = &[
     ("type-error", "use mylib::shapes::Pt;\nfn f(a: u8) -> u32 { Pt { x: a, y: a }.z }\n"),
     ("missing-item", "use mylib::util::nothing;\nfn f() -> u32 { nothing() }\n"),
     ("private-path", "fn f(a: u8) -> u32 { mylib::util::dist(a, 3) + mylib::shapes::ShapeArea::area(@mylib::shapes::Shape::Nil) }\n"),
+    ("feat:implicits", "fn f(a: felt252) -> felt252 { mylib::feats::f_implicits(a) + 1 }\n"),
+    ("feat:nopanic", "fn f(a: u8) -> u8 { mylib::feats::f_nopanic(a) }\n"),
+    ("feat:panics", "fn f(a: u8) -> u8 { mylib::feats::f_panics(a) }\n"),
+    ("feat:always", "fn f(a: u8) -> u8 { mylib::feats::f_always(a) + 1 }\n"),
+    ("feat:ref", "fn f(a: u8) -> u8 { let mut x = a; mylib::feats::f_ref(ref x, 4); x }\n"),
+    ("feat:neg", "fn f(a: i8) -> i8 { mylib::feats::f_neg(a) }\n"),
+    ("feat:consts", "use mylib::feats::{C_I8, C_U256, C_TUP, C_PT, C_ARR, C_STR, C_OPT};\nfn f(a: u8) -> felt252 { let (t0, t1) = C_TUP; let [x, _y, z] = C_ARR; let o = match C_OPT { Some(v) => v, None => 0 }; C_I8.into() + C_U256.low.into() + t0.into() + t1 + C_PT.x.into() + x.into() + z.into() + C_STR + o.into() + a.into() }\n"),
+    ("feat:closure", "fn f(a: u8) -> u8 { mylib::feats::f_closure(a) }\n"),
+    ("feat:loop", "fn f(a: u8) -> u32 { mylib::feats::f_loop(a) }\n"),
+    ("feat:match", "fn f(a: u8) -> u8 { mylib::feats::f_match(a) }\n"),
+    ("feat:snap", "fn f(a: u8) -> u32 { let arr = array![a, 1]; mylib::feats::f_snap(@arr) }\n"),
+    ("feat:destruct", "fn f(a: u8) -> u8 { let d = mylib::feats::f_mk_d(a); d.k }\n"),
+    ("feat:dict", "fn f(a: u8) -> u8 { mylib::feats::f_dict(a) }\n"),
+    ("feat:trait-default", "use mylib::feats::Tr;\nfn f(a: u8) -> u32 { a.twice() + a.base() }\n"),
+    ("feat:alias", "use mylib::feats::{Byte, AliasTr};\nfn f(a: Byte) -> u32 { AliasTr::base(a) }\n"),
+    ("feat:opt-res", "fn f(a: u8) -> u8 { let x = mylib::feats::f_opt(a).unwrap_or(1); match mylib::feats::f_res(a) { Ok(v) => v / 2 + x / 2, Err(_) => x } }\n"),
+    ("feat:generic-struct", "use mylib::feats::{W, f_unwrap};\nfn f(a: u8) -> u8 { f_unwrap(W { v: a }) }\n"),
+    ("feat:arrays", "fn f(a: u8) -> u32 { let arr = mylib::feats::f_arr(a); let [p, q] = mylib::feats::f_fixed(a); arr.len() + p.into() + q.into() }\n"),
+    ("feat:rec", "fn f(a: u8) -> u32 { mylib::feats::f_rec((a % 5).into()) }\n"),
+    ("feat:u256", "fn f(a: u128) -> u128 { mylib::feats::f_u256(a).low }\n"),
+    ("feat:bytes", "fn f() -> u32 { mylib::feats::f_bytes().len() }\n"),
+    ("feat:assert-fmt", "fn f(a: u8) -> u8 { mylib::feats::f_assert(a) }\n"),
+    ("feat:enum5", "use mylib::feats::{f_e5, f_e5_val};\nfn f(a: u8) -> u8 { f_e5_val(f_e5(a)) }\n"),
+    ("feat:enum5-match-here", "use mylib::feats::{E5, f_e5};\nfn f(a: u8) -> u8 { match f_e5(a) { E5::A => 1, E5::B(x) => x, E5::C((_, y)) => y, E5::D(p) => p.y, E5::E => 5 } }\n"),
+    ("feat:while-for", "fn f(a: u8) -> u32 { mylib::feats::f_while(a).into() + mylib::feats::f_for(a) }\n"),
+    ("feat:desnap", "use mylib::feats::{Pt, PtTrait, f_desnap};\nfn f(a: u8) -> u16 { let p = Pt { x: a, y: 2 }; p.sum() + f_desnap(@p).into() }\n"),
+    ("feat:must-use-warning", "fn f(a: u8) -> u8 { mylib::feats::f_must(a); a }\n"),
+    ("feat:deprecated-warning", "fn f(a: u8) -> u8 { mylib::feats::f_dep(a) }\n"),
+    ("feat:unstable-error", "fn f(a: u8) -> u8 { mylib::feats::f_unstable(a) }\n"),
+    ("feat:unstable-allowed", "#[feature(\"new-f\")]\nfn f(a: u8) -> u8 { mylib::feats::f_unstable(a) }\n"),
+    ("feat:hidden-error", "fn f(a: u8) -> u8 { mylib::feats::f_hidden(a) }\n"),
+    ("feat:private-error", "fn f(a: u8) -> u8 { mylib::feats::f_private(a) }\n"),
+    ("feat:uses-hidden", "fn f(a: u8) -> u8 { mylib::feats::f_uses_hidden(a) }\n"),
+    ("feat:reexport", "use mylib::feats::g2;\nfn f(a: u8) -> u8 { g2(a) + mylib::feats::nested::deeper::g(a) }\n"),
+    ("feat:assoc", "use mylib::feats::{HasK, HasKImpl};\nfn f(a: u8) -> u16 { HasKImpl::get(a) + HasKImpl::K.into() }\n"),
+    ("feat:wrong-arg-type", "fn f(a: u16) -> u8 { mylib::feats::f_nopanic(a) }\n"),
+    ("feat:wrong-arity", "fn f(a: u8) -> u8 { mylib::feats::f_nopanic(a, a) }\n"),
+    ("feat:derive-debug", "use mylib::feats::Pt;\nfn f(a: u8) -> u32 { let s = format!(\"{:?}\", Pt { x: a, y: 1 }); s.len() }\n"),
+    ("feat:impl-lib-trait-for-local", "use mylib::feats::Tr;\n#[derive(Drop, Copy)]\nstruct L { v: u8 }\nimpl TrL of Tr<L> { fn base(self: L) -> u32 { self.v.into() } }\nfn f(a: u8) -> u32 { L { v: a }.twice() }\n"),
 ];
 
 fn run_library(ctx: &mut Ctx) {
